@@ -73,6 +73,9 @@ DEF = {
     "generic_enum": "D%(k)s<T>: !enum {values: [a]}",
     "generic_protocol": "D%(k)s<T>: !protocol {sequence: {s: T}}",
     "reserved_type_name": "int32: float",
+    "type_parameter_out_of_scope": "Tpa%(k)s<Q>: !record {fields: {x: Q}}\nTpb%(k)s<W>: !record {fields: {y: W, z: Q}}",
+    "type_parameter_out_of_scope_nested": "Tpc%(k)s<Q>: !record {fields: {x: Q}}\nTpd%(k)s<W>: !map {keys: W, values: !generic {name: HostG, args: [!vector {items: Q}]}}",
+    "type_parameter_out_of_scope_plain": "Tpe%(k)s<Q>: !record {fields: {x: Q}}\nTpf%(k)s: !record {fields: {z: Q}}",
     "field_names_not_distinct": "D%(k)s: !record {fields: {xAB: int, xAb: float}}",
     "computed_field_not_distinct": "D%(k)s: !record {fields: {x2B: int}, computedFields: {x2b: 1}}",
     "step_names_not_distinct": "D%(k)s: !protocol {sequence: {sAB: int, sAb: float}}",
